@@ -115,6 +115,16 @@ def r12_2(ctx):
     c = by_pat.get("{state_directory}")
     ctx.check(c is not None and any(n.kind == "field" and n.a == "state_directory" for n in c[4].walk()), "state-dir-subst", f.where(),
               "{state_directory} is replaced by self.state_directory")
+    if c is not None:
+        from ..facts import chain_to
+        ch = chain_to(c[4], lambda n: n.kind == "field" and n.a == "state_directory") or []
+        ch = [x for x in ch if x not in ("Deref::deref", "Path::to_string_lossy", "PathBuf::as_path", "AsRef::as_ref", "Borrow::borrow")]
+        tpl = template(prog)
+        quoted = re.search(r'="\{state_directory\}"', tpl) is not None
+        ctx.check(not ch and quoted, "state-dir-raw-in-double-quotes", f.loc(c[1]),
+                  "the state directory path is inserted unmodified into a double-quoted assignment of the template",
+                  "the state directory path passes %s before it is inserted into %s of the template: quoting is applied twice (or not at all), the trap then writes "
+                  "its state below a different, stray directory" % (ch, "a double-quoted assignment" if quoted else "an unquoted position"))
 
 
 def r12_3(ctx):
@@ -196,6 +206,16 @@ def r12_4(ctx):
     }
     for k, pat in need.items():
         ctx.check(re.search(pat, group) is not None, "dump:" + k, where, "the state dump contains the `%s` printer" % k, "the state dump no longer prints %s" % k)
+    # order inside the dump: `source state` parses the file command by command, so options that change *parsing*
+    # (shopt extglob, set -o posix, ...) must be restored before function bodies and variable assignments are read
+    def pos(pat):
+        mm = re.search(pat, group)
+        return mm.start() if mm else None
+    p_opts = [pos(need["set-options"]), pos(need["shopt-options"])]
+    p_later = [pos(need["functions"]), pos(need["variables"])]
+    ctx.check(None not in p_opts + p_later and max(p_opts) < min(p_later), "dump:options-first", where,
+              "`set +o` / `shopt -p` are dumped before functions and variables (parser-affecting options are active again when the rest of the state is sourced)",
+              "the option dumps come after the function / variable dumps: a function using extglob patterns no longer parses when the state is sourced, and everything after it is lost")
     ctx.check("{excluded_variables}" in group, "dump:exclusion-filter", where, "the variable dump is filtered by {excluded_variables}")
     ctx.check(re.search(r"(?m)^shopt -s expand_aliases$", "\n".join(top)) is not None, "expand-aliases", where, "aliases are expanded in the non-interactive shell")
     ctx.check("unset -f __scrut_persist_state" in joined, "trap-not-persisted", where, "the trap function removes itself before dumping functions")
